@@ -44,53 +44,93 @@ def load_known():
     return out
 
 
-def verify_one(args):
-    key, tier, pid = args
-    import z3                                   # noqa: F401
-    from pyvc.verify import Verifier, discharge
-    from pyvc.concretize import conc
+_GEN = {}          # filled in the parent before the fork
+
+
+def generate_all(cons, tier, pid):
+    """Generate the obligations of every function (parent process)."""
+    from pyvc.verify import Verifier
     from pyvc import extra as X
-    C.load_all()
-    con = C.CONTRACTS[key]
-    V = Verifier(tier)
-    X.configure(V, con, pid)
-    out = {"file": con.file, "func": con.func, "obls": [], "undecided": [],
-           "errors": [], "paths": 0, "time_gen": 0.0, "time_solve": 0.0}
+    out = []
+    for con in cons:
+        V = Verifier(tier)
+        X.configure(V, con, pid)
+        try:
+            r = V.verify_function(con)
+        except Exception:
+            from pyvc.verify import FuncResult
+            r = FuncResult(con)
+            r.errors.append("checker crash: " + traceback.format_exc())
+        r.covers = sorted(V.covers)
+        r.timeout_ms = V.timeout_ms
+        out.append(r)
+    return out
+
+
+def solve_one(idx):
+    """Discharge obligation #idx (forked child: the z3 terms are inherited
+    copy-on-write from the parent)."""
+    from pyvc.verify import discharge
+    from pyvc.concretize import conc
+    fi, oi = _GEN["index"][idx]
+    r = _GEN["results"][fi]
+    o = r.obls[oi]
     try:
-        r = V.verify_function(con)
-        t0 = time.time()
-        discharge(r.obls, V.timeout_ms, use_cvc5=True)
-        out["time_solve"] = time.time() - t0
-        out.update(paths=r.paths, undecided=r.undecided, errors=r.errors,
-                   time_gen=r.time_gen, sha=r.sha, span=r.span,
-                   vacuity=r.vacuity,
-                   dropped=r.stats.dropped,
-                   lib_used=sorted(r.stats.lib_used),
-                   contracts_used=sorted(r.stats.contracts_used),
-                   trusted_used=sorted(r.stats.trusted_used),
-                   inlined=sorted(r.stats.inlined),
-                   covers=sorted(V.covers))
-        for o in r.obls:
-            d = {"name": o.name, "stable": getattr(o, "stable", o.name)
-                 if False else stable_name(o), "kind": o.kind,
-                 "line": o.lineno, "status": o.status, "solver": o.solver,
-                 "time": round(o.time, 4), "note": o.note,
-                 "path": "".join("T" if b else "F" for b in o.path)}
-            if o.status == "refuted" and o.model is not None:
-                try:
-                    I = o.interp
-                    d["cex"] = {
-                        "inputs": conc(o.model, I.entry_old),
-                        "calls": [{"callee": c["callee"], "line": c["line"],
-                                   "result": conc(o.model, c["result"]),
-                                   "post": conc(o.model, c["post"])}
-                                  for c in I.call_log[:o.ncalls]],
-                        "goal": str(o.goal)[:2000]}
-                except Exception as e:          # model evaluation problems
-                    d["cex_error"] = repr(e)
-            out["obls"].append(d)
-    except Exception:
-        out["errors"].append("checker crash: " + traceback.format_exc())
+        discharge([o], r.timeout_ms, use_cvc5=True)
+    except Exception as e:
+        o.status, o.note = "unknown", f"solver error: {e!r}"
+    d = {"name": o.name, "stable": stable_name(o), "kind": o.kind,
+         "line": o.lineno, "status": o.status, "solver": o.solver,
+         "time": round(o.time, 4), "note": o.note,
+         "path": "".join("T" if b else "F" for b in o.path)}
+    if o.status == "refuted" and o.model is not None:
+        try:
+            I = o.interp
+            d["cex"] = {
+                "inputs": conc(o.model, I.entry_old),
+                "calls": [{"callee": c["callee"], "line": c["line"],
+                           "result": conc(o.model, c["result"]),
+                           "post": conc(o.model, c["post"])}
+                          for c in I.call_log[:o.ncalls]],
+                "goal": str(o.goal)[:2000]}
+        except Exception as e:          # model evaluation problems
+            d["cex_error"] = repr(e)
+    return fi, oi, d
+
+
+def verify_all(cons, tier, pid, jobs):
+    t0 = time.time()
+    results = generate_all(cons, tier, pid)
+    index = [(fi, oi) for fi, r in enumerate(results)
+             for oi in range(len(r.obls))]
+    _GEN["results"], _GEN["index"] = results, index
+    solved = {}
+    t1 = time.time()
+    if index:
+        ctx = mp.get_context("fork")
+        with ctx.Pool(min(jobs, len(index))) as pool:
+            for fi, oi, d in pool.imap_unordered(solve_one,
+                                                 range(len(index)),
+                                                 chunksize=1):
+                solved[(fi, oi)] = d
+    out = []
+    for fi, r in enumerate(results):
+        con = r.contract
+        st = r.stats
+        out.append({
+            "file": con.file, "func": con.func,
+            "obls": [solved[(fi, oi)] for oi in range(len(r.obls))],
+            "undecided": r.undecided, "errors": r.errors, "paths": r.paths,
+            "time_gen": r.time_gen,
+            "time_solve": sum(solved[(fi, oi)]["time"]
+                              for oi in range(len(r.obls))),
+            "sha": r.sha, "span": r.span, "vacuity": r.vacuity,
+            "dropped": st.dropped if st else {},
+            "lib_used": sorted(st.lib_used) if st else [],
+            "contracts_used": sorted(st.contracts_used) if st else [],
+            "trusted_used": sorted(st.trusted_used) if st else [],
+            "inlined": sorted(st.inlined) if st else [],
+            "covers": r.covers})
     return out
 
 
@@ -128,11 +168,7 @@ def main(argv=None):
     cons = [c for c in C.for_property(a.pid) if c.verify]
     if a.only:
         cons = [c for c in cons if a.only in c.func]
-    jobs = [(c.key, a.tier, a.pid) for c in cons]
-    results = []
-    if jobs:
-        with mp.Pool(min(a.jobs, len(jobs))) as pool:
-            results = pool.map(verify_one, jobs, chunksize=1)
+    results = verify_all(cons, a.tier, a.pid, a.jobs) if cons else []
     extra = X.run_extra(a.pid, a.tier, seed) if not a.only else []
     return report(a, seed, cons, results, extra, t_start)
 
